@@ -21,6 +21,10 @@ ALL_CLAIMED = ["C03","C04","C07","C10","C12","C16","C17","C18","C20"]
 TRUST = "Trusted: the simulator stubs (fidelity rules in DESIGN.md §2.3), the seam rewriter (its report of unseamed sites is in the evidence), the harness's own reference codec/models. Sampling, not proof."
 
 CLAIMED = {
+ "C04": dict(engine="wire-world", cat="exploration",
+   text="Seeded runs over every struct-like type of the schema corpus regenerated from the tree's own templates: byte strings (encodings of valid reflected Go values, schema-evolution edits, byte-level mutations) decoded through FromWire(Decode) and through T.Decode over a simulated reader under seeded delivery schedules, peer death and I/O errors; Go values (valid and damaged) serialized through both serializers; oracles: equal values whenever both accept, value-based acceptance implies streaming acceptance, independence from segmentation and seekability, faults inside the struct never accepted, serializers fail together or produce encodings that decode to equal values.",
+   ref="DESIGN.md §4 C04", note=TRUST+" Container counts above 32768 in mutated inputs are capped by the harness (C13's territory). Nothing is asserted about which inputs must be rejected.",
+   tech="deterministic simulation of the caller-supplied reader/writer (seeded delivery schedules and fault injection) over regenerated code; differential oracle between the two paths"),
  "C12": dict(engine="wire-world", cat="exploration",
    text="Seeded simulated exchanges: envelopes round-tripped through the value-based and streaming codecs and compared byte for byte with an independent encoder; a client and a server exchanging requests in the three framings through DecodeRequest or ReadRequest, over simulated readers and over a live simulated pipe written in seeded chunks by a client task, with the reply decoded by an independent client of that framing; and agreement of the two request APIs on arbitrary bytes under seeded delivery schedules, peer death and I/O errors.",
    ref="DESIGN.md §4 C12", note=TRUST+" Legacy names stay below 2^24 bytes; a stream that ends early is judged as the shorter input it is; nothing is demanded when an injected I/O error hits the two-byte framing peek.",
